@@ -23,6 +23,7 @@ import (
 	"github.com/shopspring/decimal"
 	"pgregory.net/rapid"
 
+	"verifharness/internal/evid"
 	"verifharness/internal/sim"
 )
 
@@ -86,6 +87,9 @@ func (s *snap) total() *big.Int {
 func storeKey(contract common.Address, key string) string {
 	return string(append(append([]byte{0x5}, contract[:]...), key...))
 }
+
+// subStats counts what the sub-action clause met (evidence).
+func subStats(label string) { evid.Count("subaction." + label) }
 
 type storeWrite struct {
 	value   []byte
@@ -577,6 +581,75 @@ func (c *txCase) check(t *rapid.T) {
 		}
 		if d := new(big.Int).Sub(c.with.holdings(a), c.without.holdings(a)); d.Sign() < 0 {
 			c.failf(t, "%s is neither the sender nor an executing contract and lost %v", c.w.Name(a), new(big.Int).Neg(d))
+		}
+	}
+
+	// --- WASM sub-actions that failed (or sit inside a failed one) leave no trace. Decided from the receipt's action tree
+	// and the two states only - independent of the environment's write buffers: a contract that only such actions ran on /
+	// would have created must look exactly as in the block without the tx (account incl. contract record, code, store). ---
+	if isWasm {
+		tree := decodeActionResult(rec.ActionResult)
+		live := map[common.Address]bool{}
+		if rec.Success {
+			live[C], live[rec.ContractAddress] = true, true
+		}
+		tree.walkEff(func(x *actionNode, _ int, eff bool) {
+			if eff {
+				live[x.target()] = true
+			}
+		}, 0, true)
+		failedSubs := 0
+		tree.walkEff(func(x *actionNode, depth int, eff bool) {
+			if depth == 0 || eff {
+				return
+			}
+			failedSubs++
+			switch x.Type {
+			case actionDeploy:
+				subStats("failed-sub-deployment")
+				if x.Type == actionDeploy && len(x.Code) > 0 && !x.Contract.IsEmpty() && x.Contract != wasm.ComputeContractAddr(x.Code, x.Args, x.Nonce) {
+					c.failf(t, "failed sub-deployment reports address %s, the VM's rule gives %s", x.Contract.Hex(), wasm.ComputeContractAddr(x.Code, x.Args, x.Nonce).Hex())
+				}
+			case actionCall:
+				subStats("failed-sub-call")
+			default:
+				subStats(fmt.Sprintf("failed-sub-action-type-%d", x.Type))
+			}
+			a := x.target()
+			if a.IsEmpty() || live[a] || a == S || a == P {
+				return // also the target of an action that took effect (e.g. a failed callback on the calling contract): nothing to say
+			}
+			what := "sub-call"
+			if x.Type == actionDeploy {
+				what = "sub-deployment"
+			}
+			aw, inW := c.with.img.Accounts[a]
+			ao, inO := c.without.img.Accounts[a]
+			if inW != inO {
+				c.failf(t, "failed %s (%q on %s: %s) left a trace: account exists with the tx = %v, without = %v (contract record %v)", what, x.Method, a.Hex(), x.Error, inW, inO, aw.Contract != nil)
+			}
+			bw, _ := aw.ToBytes()
+			bo, _ := ao.ToBytes()
+			if !bytes.Equal(bw, bo) {
+				c.failf(t, "failed %s (%q on %s: %s) left a trace: account record differs from the block without the tx (balance %v vs %v, contract record %v vs %v)", what, x.Method, a.Hex(), x.Error, aw.Balance, ao.Balance, aw.Contract != nil, ao.Contract != nil)
+			}
+			if !bytes.Equal(c.with.code[a], c.without.code[a]) {
+				c.failf(t, "failed %s (%q on %s: %s) left a trace: %d bytes of code with the tx, %d without", what, x.Method, a.Hex(), x.Error, len(c.with.code[a]), len(c.without.code[a]))
+			}
+			prefix := storeKey(a, "")
+			for _, k := range klist {
+				if strings.HasPrefix(k, prefix) {
+					vw, okW := c.with.store[k]
+					vo, okO := c.without.store[k]
+					if okW != okO || !bytes.Equal(vw, vo) {
+						c.failf(t, "failed %s (%q on %s: %s) left a trace: store key %q differs from the block without the tx", what, x.Method, a.Hex(), x.Error, k[len(prefix):])
+					}
+				}
+			}
+			subStats("failed-sub-action-target-compared-with-reference")
+		}, 0, true)
+		if failedSubs > 0 && rec.Success {
+			subStats("successful-tx-with-failed-sub-action")
 		}
 	}
 
